@@ -17,7 +17,12 @@ CONSTANTS
   MaxPrep = 0
   MaxThrows = 0
   ThrowFixed = TRUE
+  AreaOffs = {0, 8}
+  AlignUp = FALSE
+  MaxDtor = 0
+  DtorFirst = TRUE
+  MaxDtorMoves = 1
   MaxOwner = 0
-INVARIANTS TypeOK Exclusive BlockAlive BookkeepingTruthful LargeEnough SizeRoundTrip HeapFallbackFreedOnce TrailerTruthful MtSafeNeverShares BusyMeansInUse ReuseBlock ExtraCtorDtorOnce
+INVARIANTS TypeOK Exclusive BlockAlive BookkeepingTruthful LargeEnough SizeRoundTrip HeapFallbackFreedOnce TrailerTruthful MtSafeNeverShares BusyMeansInUse ReuseBlock ExtraCtorDtorOnce ExtraDiesInOwnBlock
 PROPERTIES ExtraUsableAtCreation WarmNoAlloc CompleteNoAlloc MoveNoAlloc
 CHECK_DEADLOCK FALSE
